@@ -48,7 +48,8 @@ EXPLANATION = (
     "methods touch the transport; foreign code is called inside catch-all funnels. "
     "Event ordering at run time and behaviour of transports after close() are not decided. "
     "(W7) A strict .encode() in a response sink before the first write is either applied to a provably surrogate-free string (flow-sensitive provenance) or caught on every call chain up to the asyncio callback. "
-    "(W8) The request-line parsers raise only ValueError: constant subscripts are dominated by an existence test (or the protocol catches everything around the parser)."
+    "(W8) The request-line parsers raise only ValueError: constant subscripts are dominated by an existence test (or the protocol catches everything around the parser). "
+    "(W9) = C15.X5: the transport facade's close() reaches the TCP close on every normal path."
 )
 
 HEADER_RE = re.compile(r"^[1-6][0-9] [^\r\n]*\r\n$")
